@@ -36,6 +36,11 @@ PARAMS = ["amp", "xo", "yo", "sx", "sy", "theta"]
 
 
 MUTANTS = [
+    ("errors from the Jacobian on the transposed pixel set",
+     "AegeanTools/fitting.py",
+     "            J = lmfit_jacobian(params, mask[0], mask[1], errs=errs)",
+     "            J = lmfit_jacobian(params, mask[1], mask[0], errs=errs)",
+     "C04-R9"),
     ("geometry recomputed only when xo or sx vary", "AegeanTools/fitting.py",
      "        # precompute for speed\n        sint = np.sin(np.radians(theta))\n"
      "        cost = np.cos(np.radians(theta))\n",
